@@ -143,6 +143,12 @@ pub fn enumerated() -> Vec<String> {
         out.push("position fen 4k3/pppppppp/pppppppp/pppppppp/8/8/8/4K3 w - - 0 1".to_string());
         out.push("position fen 4k3/8/8/8/PPPPPPPP/PPPPPPPP/PPPPPPPP/4K3 b - - 0 1".to_string());
     }
+    // (e4) every en-passant square on a board with pawns about to promote, both sides to move
+    for side in ["w", "b"] {
+        for sq in 0..64u8 {
+            out.push(format!("position fen 7k/3P4/8/8/8/8/3p4/K7 {} - {} 0 1", side, refchess::sq_name(sq)));
+        }
+    }
     // (d) numeric abuse
     for n in ["-1", "0", "+5", "2147483647", "2147483648", "4294967296", "18446744073709551615", "18446744073709551616", "1e9", "0x10", "１", "", " ", "99999999999999999999999999999999999999", "-0", "3.5"] {
         out.push(format!("go depth {}", n));
